@@ -1,4 +1,5 @@
 CONSTANT Variant = "cube_sign"
+CONSTANT Tier = "quick"
 INIT Init
 NEXT Next
 INVARIANT InvExpandedLaw
